@@ -319,6 +319,46 @@ Proof.
   reflexivity.
 Qed.
 
+(* ---- the admissible alternatives: empty exactly when the decision accepts, and they contain the decision *)
+Theorem defect_alts_spec O D :
+  (defect_with O D = None <-> defect_alts O D = []) /\ (forall d, defect_with O D = Some d -> In d (defect_alts O D)).
+Proof.
+  unfold defect_with, defect_alts, op_defect, op_alts, flag.
+  destruct (existsb (fun w => w_ff w && negb (is_shl (w_op w))) (d_wr D));
+  destruct (existsb (fun w => w_ff w && negb (is_top_level (adr D (w_node w)))) (d_wr D));
+  destruct (existsb (fun w => negb (w_ff w) && negb (is_at (w_op w))) (d_wr D)); cbn [app];
+  try (split; [split; discriminate|intros d H; inversion H; cbn; auto]).
+  destruct (conn_loop (edges D)); [split; [split; discriminate|intros d H; inversion H; cbn; auto]|].
+  cbv zeta.
+  repeat match goal with |- context [if ?b then _ else _] => destruct b end; cbn [app];
+    (split; [split; (discriminate || reflexivity)|intros d H; inversion H; cbn; auto]).
+Qed.
+
+Lemma op_alts_eq D D' : design_equiv D D' -> op_alts D = op_alts D'.
+Proof.
+  intros HE. pose proof (proj1 (proj2 (proj2 HE))) as Hw. unfold op_alts.
+  rewrite (existsb_cong (fun w => w_ff w && negb (is_shl (w_op w))) (fun w => w_ff w && negb (is_shl (w_op w))) _ _ Hw) by reflexivity.
+  rewrite (existsb_cong (fun w => w_ff w && negb (is_top_level (adr D (w_node w))))
+                        (fun w => w_ff w && negb (is_top_level (adr D' (w_node w)))) _ _ Hw)
+    by (intros w _; rewrite (adr_eq D D' HE); reflexivity).
+  rewrite (existsb_cong (fun w => negb (w_ff w) && negb (is_at (w_op w))) (fun w => negb (w_ff w) && negb (is_at (w_op w))) _ _ Hw) by reflexivity.
+  reflexivity.
+Qed.
+
+Theorem defect_alts_equiv_indep O D D' : design_equiv D D' -> defect_alts O D = defect_alts O D'.
+Proof.
+  intros HE. unfold defect_alts.
+  rewrite (op_alts_eq D D' HE). destruct (op_alts D'); [|reflexivity].
+  rewrite (conn_loop_eqv _ _ (edges_eqv D D' HE)). destruct (conn_loop (edges D')); [reflexivity|].
+  pose proof (nets_eqv D D' HE) as HN.
+  pose proof (driven_final_eqv O D D' HE _ _ HN) as HR.
+  cbv zeta.
+  rewrite (net_multi_eqv O D D' HE _ _ _ _ HN HR), (blk_multi_eq O D D' HE), (port_upblk_eq D D' HE),
+          (net_none_eqv O D D' HE _ _ _ _ HN HR),
+          (conn_viol_exists_eqv O D D' _ _ is_portrule HE HR), (conn_viol_exists_eqv O D D' _ _ is_invalidconn HE HR).
+  reflexivity.
+Qed.
+
 (* permutations and side swaps are instances *)
 Lemma cflip_conn_equiv : forall C bs, conn_equiv C (cflip_some bs C).
 Proof.
